@@ -108,6 +108,10 @@ func specFor(sc scenario) *common.Spec {
 		spec.MAX_WITHDRAWALS_PER_PAYLOAD = 2
 		spec.MAX_VALIDATORS_PER_WITHDRAWALS_SWEEP = 8
 		// vector lengths that are not powers of two: the padding of the Merkle tree beyond the vector's length matters
+		// an epoch length that is not a power of two, a longer inclusion delay and another number of shuffling rounds than any published preset
+		spec.SLOTS_PER_EPOCH = 6
+		spec.MIN_ATTESTATION_INCLUSION_DELAY = 2
+		spec.SHUFFLE_ROUND_COUNT = 7
 		spec.EPOCHS_PER_HISTORICAL_VECTOR = 24
 		spec.SLOTS_PER_HISTORICAL_ROOT = 24
 		spec.MIN_SEED_LOOKAHEAD = 1
